@@ -317,6 +317,36 @@ CHECKS = {
     },
 }
 
+CHECKS["C03"] = {
+    "sub": "c03",
+    "level": "exploration",
+    "technique": "runtime monitoring: encoder output checked by an independent RFC 8949 well-formedness parser and reference encoder",
+    "rule": "every Encoder method is run over its argument space (u8/i8/u16/i16/simple/char exhaustively, u32/i32 exhaustively in the thorough tier, 64-bit arguments boundary-dense + random), every built-in Encode impl over generated values (encoded twice), and random balanced call sequences built from generated item trees choosing among equivalent methods; a case is non-trivial when the output reached the reference comparison; distinct = hash of the output bytes per (type | sequence), enumerated argument sweeps are distinct by construction",
+    "level_text": "Each encoder call's bytes are parsed by an independent strict RFC 8949 parser (exactly one well-formed item, shortest heads, definite lengths) and compared byte-for-byte with a reference encoder for all canonical mappings; small argument spaces are enumerated, large ones sampled boundary-dense, and call sequences explore method equivalences. Exploration with an exact oracle is the right level for an encoder whose only state is the byte sink.",
+    "level_note": "Trusted: harness/vcore/src/refcbor.rs (checked against RFC 8949 Appendix A vectors). std types whose shape is a crate convention (Duration, net types, ranges, Bound, Result) are only checked for well-formedness, preferred heads, definiteness and determinism. Known finding: Encoder::simple(24..=31).",
+    "assumptions": COMMON_ASSUMPTIONS + ["Tag alone writes a head, not a complete item, and is compared against the reference head"],
+}
+
+CHECKS["C05"] = {
+    "sub": "c05",
+    "level": "exploration",
+    "technique": "runtime monitoring: integer accessors vs i128 arithmetic oracle over enumerated (sign, width, argument) triples",
+    "rule": "all (sign, head width, argument) triples with argument < 2^16 at every admissible width, every 2^k+-3 boundary at every width, random 64-bit arguments (and in the thorough tier all 2^32 arguments at the 4- and 8-byte widths) x {u8..i64, int, char, usize/isize, 10 NonZero types, Wrapping, Option, datatype}, plus Int conversions on i128 boundaries; distinct = enumerated triples + distinct hashed random triples",
+    "level_text": "The oracle is exact (i128 arithmetic and Rust's own TryFrom range tests), the space below 2^16 and all width boundaries are enumerated completely, and the thorough tier sweeps 2^32 arguments at the two wide head widths, so every comparison/cast in the accessors is exercised on both sides of every boundary.",
+    "level_note": "Trusted: refcbor::head for building inputs. usize/isize are 64-bit on this host; 32-bit targets are not executed.",
+    "assumptions": COMMON_ASSUMPTIONS,
+}
+
+CHECKS["C12"] = {
+    "sub": "c12",
+    "level": "exploration",
+    "technique": "runtime monitoring: float codec vs exact integer-arithmetic IEEE 754 reference over enumerated bit patterns",
+    "rule": "all 2^16 half patterns; quick: a stratified f32 subset (every sign/exponent x the top 11 mantissa bits x low bits around the half rounding boundary, dense in the half-subnormal range), thorough: all 2^32 f32 patterns and all f32-representable doubles; doubles at every exponent x mantissa edges and random patterns; each pattern goes through encode, decode at its own width, widening accessors, rejection by narrower accessors and Encoder::f16 rounding; distinct = enumerated patterns + hashed random patterns",
+    "level_text": "Bit-exactness is decided on real encode/decode executions against a reference that uses only integer arithmetic on bit patterns (so it cannot share a rounding bug with the half crate or the FPU); the half domain is enumerated completely and the single domain completely in the thorough tier.",
+    "level_note": "Trusted: harness/vcore/src/refnum.rs (self-tested: every finite half round-trips; ties-to-even cases). NaN across widths is only required to stay NaN; identical bits are required at equal width.",
+    "assumptions": COMMON_ASSUMPTIONS,
+}
+
 
 def write_manifest():
     ids = [json.loads(l)["id"] for l in open(os.path.join(ROOT, "properties.jsonl"))]
